@@ -279,6 +279,15 @@ func livenessHealRealServer(w *World) {
 		"proxies": []map[string]any{
 			{"name": "h1", "type": "tcp", "localIP": "127.0.0.1", "localPort": 9300, "remotePort": 20003},
 			{"name": "h2", "type": "tcp", "localIP": "127.0.0.1", "localPort": 9300, "remotePort": 20004}}}
+	// a client with many proxies (more than any queue between its parts holds): all of them are owed the same
+	if w.KnobBool("many_proxies", 15) {
+		w.Probe("liveness.many_proxies")
+		pr := ccfg["proxies"].([]map[string]any)
+		for i := 0; i < 130; i++ {
+			pr = append(pr, map[string]any{"name": fmt.Sprintf("s%03d", i), "type": "stcp", "localIP": "127.0.0.1", "localPort": 9300, "secretKey": "k"})
+		}
+		ccfg["proxies"] = pr
+	}
 	fc, err := w.StartFrpc(c1, ccfg)
 	if err != nil {
 		w.Fail("frpc: %v", err)
@@ -330,6 +339,44 @@ func livenessHealRealServer(w *World) {
 		viol("heal", "initial-tunnel-not-up", "tunnels not usable 60 s after start")
 		return
 	}
+	// the operator may change the configuration while the client is cut off (a proxy added, another one removed):
+	// what is owed after the outage is the configuration as it stands then
+	ports := []int{20003, 20004}
+	reloads := 0
+	reloadDuringOutage := func() {
+		if !w.KnobBool("reload_during_outage", 40) || reloads >= 2 {
+			return
+		}
+		reloads++
+		w.Probe("liveness.reload_during_outage")
+		pr := ccfg["proxies"].([]map[string]any)
+		if reloads == 1 {
+			pr = append(pr, map[string]any{"name": "h3", "type": "tcp", "localIP": "127.0.0.1", "localPort": 9300, "remotePort": 20005})
+			ports = append(ports, 20005)
+		} else {
+			pr = pr[1:] // h1 goes
+			ports = ports[1:]
+		}
+		ccfg["proxies"] = pr
+		_, pcs, vcs, err := LoadClientCfg(ccfg)
+		if err != nil {
+			w.Fail("cfg: %v", err)
+		}
+		// (the call is the operator's: it runs on its own so that a reload that does not return cannot hold up the run)
+		svc := fc.Svc
+		done := make(chan struct{})
+		go func() {
+			defer close(done)
+			if err := svc.UpdateAllConfigurer(pcs, vcs); err != nil {
+				viol("heal", "reload-error", "UpdateAllConfigurer during an outage: %v", err)
+			}
+		}()
+		select {
+		case <-done:
+		case <-time.After(30 * time.Second):
+			w.Probe("liveness.reload_call_blocked")
+		}
+	}
 	nfaults := w.KnobPick("nfaults", 1, 2, 4, 7)
 	for i := 0; i < nfaults; i++ {
 		time.Sleep(time.Duration(r.Range(0, 20000)) * time.Millisecond)
@@ -366,14 +413,18 @@ func livenessHealRealServer(w *World) {
 		case 1, 2: // blackhole of arbitrary duration
 			w.Net.Partition(c1, true)
 			d := []time.Duration{2 * time.Second, 40 * time.Second, 5 * time.Minute, 2 * time.Hour}[r.Intn(4)]
-			time.Sleep(d + time.Duration(r.Intn(3000))*time.Millisecond)
+			time.Sleep(d/2 + time.Duration(r.Intn(1500))*time.Millisecond)
+			reloadDuringOutage()
+			time.Sleep(d/2 + time.Duration(r.Intn(1500))*time.Millisecond)
 			w.Net.Partition(c1, false)
 		default: // server crash and restart after an arbitrary outage
 			frps.Stop()
 			w.Net.CrashNode(w.Frps)
 			serverDown = true
 			d := []time.Duration{time.Second, 30 * time.Second, 10 * time.Minute}[r.Intn(3)]
-			time.Sleep(d + time.Duration(r.Intn(3000))*time.Millisecond)
+			time.Sleep(d/2 + time.Duration(r.Intn(1500))*time.Millisecond)
+			reloadDuringOutage()
+			time.Sleep(d/2 + time.Duration(r.Intn(1500))*time.Millisecond)
 			w.Net.RestartNode(w.Frps)
 			for tries := 0; ; tries++ {
 				frps, err = w.StartFrps(w.Frps, scfg)
@@ -393,9 +444,18 @@ func livenessHealRealServer(w *World) {
 	healedAt := w.Net.Now()
 	w.Check("C14.heals-after-faults")
 	bound := 200 * time.Second
-	ok := w.WaitUntil(bound, 500*time.Millisecond, func() bool { return roundTrip(20003) && roundTrip(20004) })
+	ok := w.WaitUntil(bound, 500*time.Millisecond, func() bool {
+		for _, p := range ports {
+			if !roundTrip(p) {
+				return false
+			}
+		}
+		return true
+	})
 	if !ok {
-		viol("heal", "tunnel-not-usable-after-faults", "%d faults (mux=%v tls=%v); %v after the last one the tunnels are still not usable", nfaults, tcpMux, tlsOn, w.Net.Now()-healedAt)
+		viol("heal", "tunnel-not-usable-after-faults", "%d faults (mux=%v tls=%v, %d configuration reloads during outages: proxies now on ports %v); %v after the last one the tunnels are still not usable", nfaults, tcpMux, tlsOn, reloads, ports, w.Net.Now()-healedAt)
+	} else if reloads == 2 && roundTrip(20003) {
+		viol("heal", "removed-proxy-back-after-outage", "proxy h1 was removed from the configuration during an outage; after the outage its port serves again")
 	}
 	w.SetSample(map[string]any{"scenario": "heal", "faults": nfaults, "heal_s": (w.Net.Now() - healedAt).Seconds()})
 	w.Nontrivial()
